@@ -39,7 +39,7 @@ pub trait Prop: Sync + Send + 'static {
     fn id(&self) -> &'static str;
     fn level(&self) -> &'static str { "exploration" }
     fn budget(&self, tier: Tier) -> Budget;
-    fn gen(&self, run_seed: u64, tier: Tier) -> Self::Case;
+    fn gen(&self, run_seed: u64, run_index: u64, tier: Tier) -> Self::Case;
     fn hash_seed(&self, c: &Self::Case) -> u64;
     /// runs on a fresh OS thread; must be a pure function of the case
     fn exec(&self, c: &Self::Case, ctx: &mut Ctx) -> Option<Violation>;
@@ -102,7 +102,7 @@ pub fn run_fresh<P: Prop>(prop: &Arc<P>, case: &P::Case, keep: bool) -> RunResul
     let p = prop.clone();
     let c = case.clone();
     let hs = prop.hash_seed(case);
-    let h = std::thread::Builder::new().stack_size(256 << 20).spawn(move || {
+    let h = std::thread::Builder::new().stack_size(64 << 20).spawn(move || {
         crate::hash::set_hash_seed(hs);
         let mut ctx = Ctx::new(keep);
         let r = guard(|| p.exec(&c, &mut ctx));
@@ -173,6 +173,94 @@ pub fn shrink_case<P: Prop>(prop: &Arc<P>, case: P::Case, class: &str, max_exec:
     (cur, curv, execs)
 }
 
+
+// ---------------------------------------------------------------------------------------------------------------
+// crash containment: the batch runs in a child process; each worker publishes the run index it is executing in a
+// shared-memory slot file, so that after an abort (stack overflow, double panic, SIGSEGV) the supervisor can find the
+// culprit by re-running the in-flight indices one per process, minimise it with one process per candidate, and
+// report it as a violation of class `crash` instead of dying without a verdict.
+pub mod slots {
+    use std::sync::atomic::{AtomicPtr, AtomicU64, Ordering};
+    static BASE: AtomicPtr<AtomicU64> = AtomicPtr::new(std::ptr::null_mut());
+    pub const N: usize = 64;
+    pub fn create(path: &std::path::Path) { let _ = std::fs::create_dir_all(path.parent().unwrap()); std::fs::write(path, vec![0u8; N * 8]).expect("slots file"); }
+    pub fn attach() {
+        let Ok(path) = std::env::var("VERIF_SLOTS") else { return };
+        use std::os::unix::io::AsRawFd;
+        let Ok(f) = std::fs::OpenOptions::new().read(true).write(true).open(&path) else { return };
+        let p = unsafe { libc::mmap(std::ptr::null_mut(), N * 8, libc::PROT_READ | libc::PROT_WRITE, libc::MAP_SHARED, f.as_raw_fd(), 0) };
+        if p != libc::MAP_FAILED { BASE.store(p as *mut AtomicU64, Ordering::SeqCst); }
+    }
+    pub fn set(slot: usize, v: u64) { let b = BASE.load(Ordering::Relaxed); if !b.is_null() && slot < N { unsafe { (*b.add(slot)).store(v, Ordering::SeqCst); } } }
+    pub fn read(path: &std::path::Path) -> Vec<u64> { let bytes = std::fs::read(path).unwrap_or_default(); bytes.chunks(8).filter(|c| c.len() == 8).map(|c| u64::from_le_bytes(c.try_into().unwrap())).collect() }
+}
+
+fn child_crashed(st: &std::process::ExitStatus) -> bool { !matches!(st.code(), Some(0) | Some(1) | Some(2)) }
+fn spawn_self(args: &[String], extra_env: &[(&str, String)], timeout_s: u64) -> Option<std::process::ExitStatus> {
+    let exe = std::env::current_exe().expect("current_exe");
+    let mut cmd = std::process::Command::new(exe);
+    cmd.args(args).env("VERIF_CHILD", "1");
+    for (k, v) in extra_env { cmd.env(k, v); }
+    cmd.stdout(std::process::Stdio::null()).stderr(std::process::Stdio::null());
+    let mut ch = cmd.spawn().expect("spawn self");
+    let t0 = Instant::now();
+    loop {
+        match ch.try_wait() { Ok(Some(st)) => return Some(st), Ok(None) => {}, Err(_) => return None }
+        if t0.elapsed().as_secs() > timeout_s { let _ = ch.kill(); let _ = ch.wait(); return None; }
+        std::thread::sleep(Duration::from_millis(5));
+    }
+}
+/// does executing this case in its own process crash the process?
+fn crashes_in_subprocess<P: Prop>(prop: &P, case: &P::Case, tag: &str) -> bool {
+    let dir = verif_dir().join("replays"); let _ = std::fs::create_dir_all(&dir);
+    let tmp = dir.join(format!(".probe-{}-{}-{}.json", prop.id(), std::process::id(), tag));
+    let _ = std::fs::write(&tmp, serde_json::to_string(&json!({"property": prop.id(), "case": serde_json::to_value(case).unwrap()})).unwrap());
+    let st = spawn_self(&["replay-child".to_string(), tmp.to_string_lossy().to_string()], &[], 120);
+    let _ = std::fs::remove_file(&tmp);
+    match st { Some(st) => child_crashed(&st), None => false }
+}
+
+fn supervise<P: Prop>(prop: &Arc<P>, tier: Tier) -> ! {
+    let id = prop.id();
+    let t0 = Instant::now();
+    let path = verif_dir().join("replays").join(format!(".slots-{}-{}", id, std::process::id()));
+    slots::create(&path);
+    let exe = std::env::current_exe().expect("current_exe");
+    let st = std::process::Command::new(exe).args(std::env::args().skip(1)).env("VERIF_CHILD", "1").env("VERIF_SLOTS", &path).status().expect("spawn batch child");
+    if !child_crashed(&st) { let _ = std::fs::remove_file(&path); std::process::exit(st.code().unwrap()); }
+    let inflight: Vec<u64> = slots::read(&path).into_iter().filter(|v| *v != 0).map(|v| v - 1).collect();
+    let _ = std::fs::remove_file(&path);
+    outln!("[{}] the batch process died ({}) with run indices {:?} in flight; probing each in its own process", id, st, inflight);
+    let seed = verif_seed();
+    for i in inflight {
+        let run_seed = mix(seed, i);
+        let case = prop.gen(run_seed, i, tier);
+        if !crashes_in_subprocess(&**prop, &case, "find") { continue; }
+        // minimise with one process per candidate
+        let mut cur = case; let mut execs = 0; let ts = Instant::now();
+        'outer: loop {
+            for (n, cand) in prop.shrink(&cur).into_iter().enumerate() {
+                if execs >= 60 || ts.elapsed().as_secs() > 150 { break 'outer; }
+                execs += 1;
+                if crashes_in_subprocess(&**prop, &cand, &format!("s{}", n)) { cur = cand; continue 'outer; }
+            }
+            break;
+        }
+        let v = Violation::new("crash", format!("executing this case kills the process ({}): stack overflow, abort or fatal signal inside the system under test", st));
+        let p = write_replay(&**prop, &format!("{}", run_seed), run_seed, &cur, &v, &[]);
+        outln!("VIOLATION property={} replay={}", id, p);
+        outln!("  class=crash run_index={} run_seed={} shrink_execs={} {}", i, run_seed, execs, v.detail);
+        let ev = json!({ "property_id": id, "tier": tier.name(), "seed": seed as i64, "level": prop.level(),
+            "coverage": { "evaluations": i + 1, "distinct_nontrivial": 0, "rule": prop.rule(), "samples": [prop.sample(&cur)], "note": "batch aborted by a process crash; counts are lower bounds" },
+            "assumptions": prop.assumptions(), "wall_s": t0.elapsed().as_secs_f64(), "violations": 1 });
+        let evdir = verif_dir().join("evidence"); let _ = std::fs::create_dir_all(&evdir);
+        let _ = std::fs::write(evdir.join(format!("{}.json", id)), serde_json::to_string_pretty(&ev).unwrap());
+        std::process::exit(1);
+    }
+    outln!("HARNESS-ERROR the batch process died ({}) and no in-flight run reproduces the crash in isolation", st);
+    std::process::exit(2)
+}
+
 struct Agg {
     evaluations: u64,
     counters: BTreeMap<&'static str, u64>,
@@ -188,9 +276,11 @@ struct Agg {
 }
 
 pub fn run_check<P: Prop>(prop: P, tier: Tier) -> ! {
-    capture_stdio();
     install_panic_hook();
     let prop = Arc::new(prop);
+    if std::env::var("VERIF_CHILD").is_err() { supervise(&prop, tier); }
+    capture_stdio();
+    slots::attach();
     let id = prop.id();
     let t0 = Instant::now();
     let seed = verif_seed();
@@ -246,9 +336,11 @@ pub fn run_check<P: Prop>(prop: P, tier: Tier) -> ! {
                 if i >= runs { break; }
                 let run_seed = mix(seed, i);
                 *slots[w].lock().unwrap() = Some((i, Instant::now()));
-                let case = match guard(|| prop.gen(run_seed, tier)) { Ok(c) => c, Err((loc, msg)) => { agg.lock().unwrap().harness_errors.push(format!("generator panicked for run {}: {} @ {}", i, msg, loc)); continue; } };
+                self::slots::set(w, i + 1);
+                let case = match guard(|| prop.gen(run_seed, i, tier)) { Ok(c) => c, Err((loc, msg)) => { agg.lock().unwrap().harness_errors.push(format!("generator panicked for run {}: {} @ {}", i, msg, loc)); continue; } };
                 let r = run_fresh(&prop, &case, false);
                 *slots[w].lock().unwrap() = None;
+                self::slots::set(w, 0);
                 let mut a = agg.lock().unwrap();
                 a.evaluations += 1;
                 for (k, v) in &r.ctx.counters { *a.counters.entry(k).or_insert(0) += v; }
@@ -276,7 +368,7 @@ pub fn run_check<P: Prop>(prop: P, tier: Tier) -> ! {
             if let Some((i, st)) = *s.lock().unwrap() {
                 if st.elapsed().as_secs() >= hang_s {
                     let run_seed = mix(seed, i);
-                    let case = prop.gen(run_seed, tier);
+                    let case = prop.gen(run_seed, i, tier);
                     let dir = verif_dir().join("replays"); let _ = std::fs::create_dir_all(&dir);
                     let path = dir.join(format!("{}-hang-{}.json", id, run_seed));
                     let _ = std::fs::write(&path, serde_json::to_string_pretty(&json!({"property": id, "class": "hang", "run_seed": run_seed, "case": serde_json::to_value(&case).unwrap()})).unwrap());
@@ -305,7 +397,7 @@ pub fn run_check<P: Prop>(prop: P, tier: Tier) -> ! {
                 let k = pos.fetch_add(1, Ordering::Relaxed) as usize;
                 if k >= items.len() { break; }
                 let (i, h) = items[k];
-                let case = prop.gen(mix(seed, i), tier);
+                let case = prop.gen(mix(seed, i), i, tier);
                 let r = run_fresh(&prop, &case, false);
                 if r.ctx.log.hash() != h { mm.lock().unwrap().push(i); }
             }));
@@ -383,9 +475,15 @@ pub fn run_check<P: Prop>(prop: P, tier: Tier) -> ! {
 }
 
 pub fn replay_file<P: Prop>(prop: P, path: &str) -> ! {
-    capture_stdio();
     install_panic_hook();
     let prop = Arc::new(prop);
+    if std::env::var("VERIF_CHILD").is_err() {
+        let exe = std::env::current_exe().expect("current_exe");
+        let st = std::process::Command::new(exe).args(["replay-child", path]).env("VERIF_CHILD", "1").status().expect("spawn replay child");
+        if child_crashed(&st) { outln!("VIOLATION property={} replay={}", prop.id(), path); outln!("  class=crash replaying this case kills the process ({})", st); std::process::exit(1); }
+        std::process::exit(st.code().unwrap());
+    }
+    capture_stdio();
     let txt = std::fs::read_to_string(path).unwrap_or_else(|e| { outln!("HARNESS-ERROR cannot read {}: {}", path, e); std::process::exit(2) });
     let v: Value = serde_json::from_str(&txt).unwrap_or_else(|e| { outln!("HARNESS-ERROR bad replay file: {}", e); std::process::exit(2) });
     let case: P::Case = serde_json::from_value(v["case"].clone()).unwrap_or_else(|e| { outln!("HARNESS-ERROR replay case does not deserialize: {}", e); std::process::exit(2) });
@@ -399,10 +497,11 @@ pub fn replay_file<P: Prop>(prop: P, path: &str) -> ! {
 }
 
 /// run one generated case by run seed with the log shown (debugging aid)
-pub fn run_one<P: Prop>(prop: P, run_seed: u64, tier: Tier) -> ! {
+pub fn run_one<P: Prop>(prop: P, run_index: u64, tier: Tier) -> ! {
     capture_stdio(); install_panic_hook();
     let prop = Arc::new(prop);
-    let case = prop.gen(run_seed, tier);
+    let run_seed = mix(verif_seed(), run_index);
+    let case = prop.gen(run_seed, run_index, tier);
     outln!("{}", serde_json::to_string(&case).unwrap());
     let r = run_fresh(&prop, &case, true);
     for l in &r.ctx.log.lines { outln!("  | {}", l); }
